@@ -505,7 +505,7 @@ fn ord_value() -> impl Strategy<Value = Option<i32>> {
 }
 
 fn ord_case(_t: Tier) -> impl Strategy<Value = OrdCase> {
-    (0u8..5, ord_value(), ord_value(), ord_value()).prop_map(|(kind, a, b, c)| OrdCase { kind, a, b, c })
+    (0u8..8, ord_value(), ord_value(), ord_value()).prop_map(|(kind, a, b, c)| OrdCase { kind, a, b, c })
 }
 
 fn ord_laws<T: IsNone + std::fmt::Debug>(name: &str, a: T, b: T, c: T, val: impl Fn(&T) -> Option<f64>) -> CheckResult
@@ -576,6 +576,20 @@ fn check_ord(c: &OrdCase, obs: &mut Obs) -> CheckResult {
         1 => ord_laws::<Option<f64>>("Option<f64>", c.a.map(z), c.b.map(z), c.c.map(z), |x| *x),
         2 => ord_laws::<Option<i32>>("Option<i32>", c.a, c.b, c.c, |x| x.map(|v| v as f64)),
         3 => ord_laws::<i32>("i32", c.a.unwrap_or(0), c.b.unwrap_or(1), c.c.unwrap_or(-1), |x| Some(*x as f64)),
+        // time types order by their raw value (which may be negative: pre-epoch instants, and a Time is
+        // just a wrapped i64), NaT last
+        5 => {
+            let t = |v: Option<i32>| v.map(|x| Time::from_i64(x as i64 * 1_000_003)).unwrap_or(Time::nat());
+            ord_laws::<Time>("Time", t(c.a), t(c.b), t(c.c), |x| if IsNone::is_none(x) { None } else { Some(x.0 as f64) })
+        },
+        6 => {
+            let t = |v: Option<i32>| v.map(|x| DateTime::<unit::Second>::new(x as i64 * 86_399)).unwrap_or(DateTime::nat());
+            ord_laws::<DateTime<unit::Second>>("DateTime<s>", t(c.a), t(c.b), t(c.c), |x| if IsNone::is_none(x) { None } else { Some(x.0 as f64) })
+        },
+        7 => {
+            let t = |v: Option<i32>| v.map(|x| DateTime::<unit::Nanosecond>::new(x as i64 * 1_000_000_007)).unwrap_or(DateTime::nat());
+            ord_laws::<DateTime<unit::Nanosecond>>("DateTime<ns>", t(c.a), t(c.b), t(c.c), |x| if IsNone::is_none(x) { None } else { Some(x.0 as f64) })
+        },
         _ => ord_laws::<f32>(
             "f32",
             c.a.map(|x| z(x) as f32).unwrap_or(f32::NAN),
@@ -613,7 +627,7 @@ fn main() {
     let mut p = Property::new(
         "C15",
         "exhaustive part (enumerated, 5 tables): every (source, target) pair among u8, u64, i32, i64, usize, isize, f32, f64 on per-type boundary pools (0, +-1, +-0.0, type extremes, extremes +-1, 2^24+1, 2^53+1, values beyond the target range, subnormals, +-inf, NaN): x.cast::<T>() == x as T bit for bit, null -> float is NaN, x.cast::<Option<T>>() is None exactly for nulls, Some(x) / None on either side compose; bool <-> numeric on {0,1}; numeric / Option <-> String round trips with nullness; time types: None / NaN -> NaT, NaT -> NaN / None, i64 <-> raw value for 4 units, Time, TimeDelta; IsNone predicate coherence, none(), from_opt, from_inner / unwrap identity, map, vabs for every implementor; the Number conversion helpers (f32() .. usize(), to, fromas) == `as`, min_() / max_() are the type extremes, min_with / max_with pick an argument by value. \
-         generated part: comparator triples over {null, small values with ties, extremes} for f64 / f32 / Option<f64> / Option<i32> / i32: reflexive, antisymmetric, transitive, values ascending (sort_cmp) / descending (sort_cmp_rev), nulls last in both; random f64 / i64 values through the numeric cast table. \
+         generated part: comparator triples over {null, small values with ties, signed zeros, infinities, extremes} for f64 / f32 / Option<f64> / Option<i32> / i32 / Time / DateTime<s> / DateTime<ns> (negative raw values included): reflexive, antisymmetric, transitive, values ascending (sort_cmp) / descending (sort_cmp_rev), nulls last in both; random f64 / i64 values through the numeric cast table. \
          Non-trivial: triples with one or two nulls; random values that are null or outside a target's range; distinct = distinct serialised cases",
     )
     .assume("canonical nulls only (DESIGN 5.4); casts documented as panicking are outside the table (5.7): non-0/1 to bool, None to a plain integer, TimeDelta with months to i64, DateTime <-> TimeDelta");
